@@ -268,6 +268,15 @@ def analyse_engine(ctx: Ctx, ci, f, cfg, in_loop):
                 gen_lists.add(arg.id)
             elif isinstance(arg, ast.Subscript) and isinstance(arg.value, ast.Name) and isinstance(arg.slice, ast.Slice) and arg.slice.upper is None and arg.slice.step is None:
                 gen_lists.add(arg.value.id)  # L[1:]: the generations appended after the loop-entry element
+    # a recorded name may be an alias of the list the loop fills (`result = generations` on leaving the loop)
+    grew = True
+    while grew:
+        grew = False
+        for nm in list(gen_lists):
+            for d_ in defs_all.get(nm, []):
+                if isinstance(d_, ast.Name) and d_.id not in gen_lists:
+                    gen_lists.add(d_.id)
+                    grew = True
     rec = []
     for b in body:
         a = b.ast
